@@ -512,7 +512,7 @@ func (ff *FuncFacts) guardsWithin(B *ssa.BasicBlock, lp *Loop, T *ssa.BasicBlock
 		if iff == nil {
 			continue
 		}
-		if D == lp.Header {
+		if D == lp.Header && lp != ff.whole {
 			continue
 		}
 		in0 := canReachB[D.Succs[0]] && D.Succs[0] != lp.Header
@@ -936,4 +936,26 @@ func (ff *FuncFacts) loopSpace(lp *Loop) string {
 		}
 	}
 	return init + name + " " + b.Op.String() + " " + ff.Term(b.Y)
+}
+
+// StoreFacts lists every store of the function as "ADDR := VALUE" (normalised
+// terms), plus map updates as "MAP[KEY] := VALUE".
+func (ff *FuncFacts) StoreFacts() []StoreFact {
+	var out []StoreFact
+	for _, b := range ff.Fn.Blocks {
+		for _, in := range b.Instrs {
+			switch s := in.(type) {
+			case *ssa.Store:
+				out = append(out, StoreFact{S: ff.Term(s.Addr) + " := " + ff.Term(s.Val), In: s})
+			case *ssa.MapUpdate:
+				out = append(out, StoreFact{S: ff.Term(s.Map) + "[" + ff.Term(s.Key) + "] := " + ff.Term(s.Value), In: s})
+			}
+		}
+	}
+	return out
+}
+
+type StoreFact struct {
+	S  string
+	In ssa.Instruction
 }
